@@ -238,10 +238,10 @@ def gen_add_calls(rng, cpds, add_order):
     return calls
 
 
-def gen_big(rng):
+def gen_big(rng, allow10=True):
     """9..10 variables with small-int names >= 8, one long directed path (depth n-1) plus sparse extra edges;
     a sample of missing subsets of sizes 1..6 instead of all of them"""
-    n = rng.choice([9, 9, 9, 10])                     # exact rational inverses grow fast: 12 nodes cost ~1 min per case
+    n = rng.choice([9, 9, 9, 10]) if allow10 else 9    # exact rational inverses grow fast: 12 nodes cost ~1 min per case
     order = list(range(n))
     rng.shuffle(order)
     edges = [[order[i], order[i + 1]] for i in range(n - 1)]
@@ -453,7 +453,7 @@ def cases(tier, seed):
     for _ in range(25 * k):
         out.append(gen_lgbn(rng, nmax=5, mag=True))
     for _ in range(5 * k):
-        out.append(gen_big(rng))
+        out.append(gen_big(rng, allow10=(tier != "quick")))
     for _ in range(50 * k):
         out.append(gen_session(rng))
     for _ in range(24 * k):
@@ -879,8 +879,10 @@ def run_fit(case, drv):
         beta, sigma = cd.fit(dfc, ["(Y|X)"] + [names[u] for u in ev], estimator="MLE")
         mb, mv = fvec(mr[0]), fr(mr[1])
         s2 = float(mv) * (N - 1) / N
+        # an exact fit (RSS = 0) makes the hand-written variance formula cancel to a tiny negative number whose
+        # square root is NaN (reported); sigma is compared only where the exact residual variance is positive
         if len(beta) != len(mb) or not all(close(a_, b_, 1e-7) for a_, b_ in zip(beta, mb)) \
-                or not close(float(sigma) ** 2, s2, 1e-6):
+                or (mv > 0 and not close(float(sigma) ** 2, s2, 1e-6)):
             return bad("impl!=model:LinearGaussianCPD.fit", {"node": v, "evidence": list(ev), "impl": [list(map(float, beta)), float(sigma)],
                                                               "model": [[float(x) for x in mb], math.sqrt(s2)]})
         try:
@@ -1088,7 +1090,8 @@ def run_gauss(case, drv):
             margs = [fresh(names[v]) for v in sel]
             if (r + len(sel) + n) % 3 == 1:
                 margs = tuple(margs)
-            elif (r + len(sel) + n) % 3 == 2 and all(isinstance(x, str) for x in margs):
+            elif (r + len(sel) + n) % 3 == 2 and all(isinstance(names[v], str) for v in vars1):
+                # (an ndarray argument next to a TUPLE name in the scope is mis-read by `name in ndarray`: reported)
                 margs = np.array(margs, dtype=object)
             cm = cf.marginalize(margs, inplace=False)
             Kjj = Kf[np.ix_(J, J)]
